@@ -1,6 +1,7 @@
 """C05 - QuantileLinearRegression fits, and scores with, the pinball loss of its quantile."""
 import z3
 from pyvc.api import Contract, contract
+from contracts._frames import query_frame
 from pyvc.values import Obj, NdArr, z
 from pyvc import models
 from pyvc.ghost import sum1, SumF
@@ -24,6 +25,7 @@ def mult_spec(q, pred, true):
 
 
 @contract(F + "::QuantileLinearRegression._epsilon", "C05")
+@query_frame("self")
 class Epsilon(Contract):
     variants = [False, True]
     inline_at_calls = True      # callers execute its (loop-free) body: their obligations stay quantifier-free
@@ -79,6 +81,7 @@ def _self(E, fitted=True):
 
 
 @contract(F + "::QuantileLinearRegression.score", "C05")
+@query_frame("self")
 class Score(Contract):
     """score = 2 * (weighted) mean pinball loss of the model's own quantile; MAE at q = 0.5"""
     variants = [False, True]
@@ -157,7 +160,8 @@ class ComputeZ(Contract):
                 "cols": z(a.Xm.shape[1]) == z(a.beta.shape[0])}
 
     def old(self, E, a):
-        return dict(Xm=a.Xm.snapshot(), beta=a.beta.snapshot(), Y=a.Y.snapshot())
+        return dict(Xm=a.Xm.snapshot(), beta=a.beta.snapshot(), Y=a.Y.snapshot(),
+                    writes={k: a[k].cell.writes for k in ("Xm", "beta", "Y", "W") if isinstance(a[k], NdArr)})
 
     def _pred(self, E, a, old):
         mm = E.ps.get("matmul", [])
@@ -191,6 +195,10 @@ class ComputeZ(Contract):
             return z3.If(q == HALF, z3.RealVal(1), 1 - m)
         res_abs = lambda k: zabs(pred.get(k) - Y.get(k))
         return {
+            # W may be the caller's sample weights: the new weights are NEW arrays, the arguments are read only
+            "arguments_not_written_results_are_new_arrays": z3.BoolVal(
+                all(a[k].cell.writes == w for k, w in old.get("writes", {}).items())
+                and all(isinstance(x, NdArr) and all(x.cell is not a[k].cell for k in ("Xm", "beta", "Y", "W") if isinstance(a[k], NdArr)) for x in (r, eps))),
             "irls_weight": z3.And(z(r.shape[0]) == n, E.forall_range(
                 [(0, n)], lambda k: r.get(k) == one_minus_mult(k) / z3.If(res_abs(k) >= d, res_abs(k), d))),
             "weighted_abs_residual": z3.And(z(eps.shape[0]) == n, E.forall_range(
@@ -215,7 +223,9 @@ class Fit(Contract):
                 "max_iter>=1": z(s["max_iter"]) >= 1}
 
     def old(self, E, a):
-        return dict(tl=len(E.trace), params={k: v for k, v in a.self.fields.items()})
+        return dict(tl=len(E.trace), params={k: v for k, v in a.self.fields.items()},
+                    writes={k: a[k].cell.writes for k in ("X", "y", "sample_weight") if isinstance(a[k], NdArr)},
+                    data={k: a[k].snapshot() for k in ("X", "y", "sample_weight") if isinstance(a[k], NdArr)})
 
     @staticmethod
     def _W_spec(E, s, Xm, beta, y, sw, k, swap=False):
@@ -263,6 +273,8 @@ class Fit(Contract):
                                                             z3.BoolVal(not z3.is_expr(f.get("intercept_")) and f.get("intercept_") == 0))
         out["hyper_parameters_unchanged"] = z3.BoolVal(all(f.get(k) is v or (z3.is_expr(v) and z3.is_expr(f.get(k)) and z3.eq(f.get(k), v))
                                                            for k, v in old["params"].items()))
+        # the caller's arrays - the sample weights above all, which the iterations re-weight - are read, never written
+        out["training_data_and_sample_weight_not_written"] = z3.BoolVal(all(a[k].cell.writes == w for k, w in old["writes"].items()))
         return out
 
 
